@@ -225,6 +225,7 @@ pub fn drive(family: &str, thorough: bool, seed_val: u64, r: &mut Runner) {
         "vendor_enum" => crate::drivers_rx::vendor_enum(&mut d),
         "identity" => crate::drivers_rx::identity(&mut d),
         "probe" => crate::drivers_rx::probe(&mut d),
+        "tour" => crate::drivers_rx::tour(&mut d),
         "headers" => crate::drivers_misc::headers(&mut d),
         "conv" => crate::drivers_misc::conv(&mut d),
         _ => {
